@@ -75,6 +75,17 @@ fn check_text(text: &str, want_trace: bool) -> (Result<Option<Value>, String>, O
 }
 
 fn tower_text(opener: &str, n: usize) -> String {
+    // a flat run "run|<lead>|<unit>": the lead, then n units, then the end of the input
+    if let Some(rest) = opener.strip_prefix("run|") {
+        let (lead, unit) = rest.split_once('|').expect("run|lead|unit");
+        let mut t = String::with_capacity(lead.len() + (unit.len() + 1) * n + 2);
+        t.push_str(lead);
+        for _ in 0..n {
+            t.push(' ');
+            t.push_str(unit);
+        }
+        return t;
+    }
     let mut s = String::from("fn a() { ");
     let unit = match opener {
         "List(" => { s = String::from("fn a(x: "); "List(" }
